@@ -208,6 +208,7 @@ def eval_history(desc, grid, M, lim):
     problems = []
     dead = set()
     hit = False
+    released = len(xs)
     for s in range(desc["steps"]):
         X0, Y0, act0 = st.X.copy(), st.Y.copy(), st.active.copy()
         tr.update()
@@ -226,5 +227,14 @@ def eval_history(desc, grid, M, lim):
                 problems.append(f"step {s}: inactive pid {pid} moved")
         if s % 3 == 2:
             st.compactify()
+            # new particles are released while earlier ones are dead and gone: identifiers of the dead stay dead
+            k = int(rng.integers(1, 4))
+            j = rng.integers(0, len(xs), k)
+            st.append(X=np.array(xs)[j], Y=np.array(ys)[j], Z=5.0)
+            released += k
+        if len(set(int(q) for q in st.pid)) != len(st):
+            problems.append(f"step {s}: identifiers not unique: {sorted(int(q) for q in st.pid)}")
+    if int(st.npid) != released:
+        problems.append(f"{released} particles released, pid counter says {int(st.npid)}")
     return {"ints": None, "oracle": "; ".join(problems[:3]) or None, "nontrivial": ("h", desc["seed"]) if hit else None,
             "kind": "history-" + desc["adv"], "observed": {"alive": int(st.alive.sum()), "dead": len(dead)}}
